@@ -205,6 +205,8 @@ def run(ctx: Ctx) -> None:
         # tie of the modelled block sub-parser (mini_provenance is a theorem about exactly this model)
         from . import miniblock
         miniblock.tie_all(ctx, drv, quick)
+        from . import rxtie
+        rxtie.tie_leaf(ctx, drv, quick)      # translated regular expressions + inline leaf rules (autolink, html_inline, entity)
     finally:
         drv.close()
     ctx.partial += [
